@@ -374,7 +374,11 @@ func NumDocs() *TextSet {
 	return memoize("NumDocs", func() *TextSet {
 		negZero := math.Copysign(0, -1)
 		nums := []V{0.0, negZero, 1e21, 0.30000000000000004, 0.3, 9007199254740992.0, 9007199254740993.0, 1e-7, -1.5, 1.0, 100.0,
-			9007199254740994.0, 1e19, 2e19, 9223372036854775807.0, 18446744073709551616.0, 1700000000000.0, 1700000000001.0, 1e-10, 2e-10, 1e-12}
+			9007199254740994.0, 1e19, 2e19, 9223372036854775807.0, 18446744073709551616.0, 1700000000000.0, 1700000000001.0, 1e-10, 2e-10, 1e-12,
+			// a number and its negation; the subnormal range and its border (neighbouring values differ by 5e-324)
+			-1.0, -5.0, 5.0, -1e-7, 5e-324, 1e-323, 1.5e-323, -5e-324, 2.2250738585072014e-308, 2.225073858507201e-308, 1.7976931348623157e308,
+			// fractions that differ only beyond the 15th significant digit
+			0.1, 0.10000000000000002, 1234.5678901234567, 1234.5678901234569}
 		var out []V
 		for _, x := range nums {
 			out = append(out, x, []interface{}{x}, map[string]interface{}{"a": x}, []interface{}{1.0, x, 1.0}, map[string]interface{}{"a": []interface{}{x, x}},
@@ -393,7 +397,11 @@ func NumDocs() *TextSet {
 func StrDocs() *TextSet {
 	return memoize("StrDocs", func() *TextSet {
 		strs := []V{"", "a\nb", "\"q\"", "\u00e9", "\U0001F600", " lead", "trail ", "- x", "+ y", "@ z", "^ w", "[", "]", "true", "1", "null", "a\\b", "\t", "<&>",
-			"50%", "100%d done %s", "%!f(MISSING)", "\\u003c", "a \\u003cb\\u003e \\u0026", "http://example.com/a/b", strings.Repeat("z", 70000)}
+			"50%", "100%d done %s", "%!f(MISSING)", "\\u003c", "a \\u003cb\\u003e \\u0026", "http://example.com/a/b", strings.Repeat("z", 70000),
+			// the same text with different line ends / white space / composition; controls that Go and JSON quote differently
+			"a\r\nb", "a\rb", "a\tb", "a  b", "\u00e9x", "e\u0301x", "\a", "\v", "\x7f", "\ufffd", "x\ufffdy", "\U000e0001",
+			// text that looks like a comment, a number or a line of the diff format
+			"see // below", "x /* y */ z", "a /*", "*/ b", "-5", "- -5", "# c"}
 		var out []V
 		for i, x := range strs {
 			out = append(out, x, []interface{}{x}, map[string]interface{}{"k": x})
